@@ -143,7 +143,23 @@ def sany(module_path):
     return txt
 
 
-def run(module, cfg, *, workers=None, simulate=None, depth=None, seed=None, dump=None, coverage=True,
+def run(module, cfg, **kw):
+    """Run TLC (see _run_once).  A run that dies without any verdict of its own (no violated invariant / property /
+    deadlock / assertion: the JVM could not get its threads or memory while many other JVMs were starting, say) is
+    tried once more after a pause before it is reported as a machinery failure."""
+    try:
+        return _run_once(module, cfg, **kw)
+    except MachineryError as ex:
+        if 'TLC failed' not in str(ex):
+            raise
+        time.sleep(5)
+        try:
+            return _run_once(module, cfg, **kw)
+        except MachineryError as ex2:
+            raise MachineryError('%s\n(second attempt after: %s)' % (ex2, str(ex)[:300])) from ex2
+
+
+def _run_once(module, cfg, *, workers=None, simulate=None, depth=None, seed=None, dump=None, coverage=True,
         env=None, timeout=900, extra=(), deque=False, metadir=None, continue_=False, allow_violation=True,
         maxsetsize=None, cwd=None):
     """Run TLC on `module` (path to .tla) with config file `cfg`.
@@ -228,7 +244,8 @@ def run(module, cfg, *, workers=None, simulate=None, depth=None, seed=None, dump
     if res.violation and res.violation[0] in ('invariant', 'deadlock', 'property'):
         res.trace = _parse_trace(out)
     if res.violation and res.violation[0] == 'error':
-        raise MachineryError('TLC failed (rc=%s): %s\n%s' % (p.returncode, res.cmd, out[-3000:]))
+        first = [l for l in out.splitlines() if re.match(r'\s*(Error|.*Exception|.*OutOfMemory|.*unable to create|# )', l)][:6]
+        raise MachineryError('TLC failed (rc=%s): %s\n%s\n%s' % (p.returncode, res.cmd, '\n'.join(first), out[-2000:]))
     return res
 
 
